@@ -24,3 +24,11 @@ func VerifNewServerOnPath(s network.Suite, dbPath string, id *network.ServerIden
 	}
 	return newServer(s, dbPath, r, priv), nil
 }
+
+// VerifC16DbFileNames returns dbFileNameOld() and dbFileName() of a service
+// manager of a server with the given identity and data directory (nothing is
+// opened or created).
+func VerifC16DbFileNames(id *network.ServerIdentity, dbPath string) (oldName, newName string) {
+	s := &serviceManager{server: &Server{Router: &network.Router{ServerIdentity: id}}, dbPath: dbPath}
+	return s.dbFileNameOld(), s.dbFileName()
+}
